@@ -197,6 +197,23 @@ def run_rx(run, cfg, G):
                        "frame was delivered, a decode error was returned, a poll was pending or end-of-stream was reported; distinct = distinct case lines")
 
 
+def run_c07(run, cfg, G):
+    """C07 = the receive path under abandoned receives (rx) + the server's own way of abandoning them (srv)."""
+    diff_run(run, G, ["rx"], "rx", rx_nontrivial, "rx")
+    diff_run(run, G, ["srv"], "srv", srv_nontrivial, "srv")
+    def search():
+        for off in (1, 2, 3):
+            diff_run(run, G, ["rx"], "rx", rx_nontrivial, f"rx-search{off}", tier="thorough", seed_offset=off, record=False)
+            if any(v[2] == "" for v in run.violations):
+                return
+        diff_run(run, G, ["srv"], "srv", srv_nontrivial, "srv-search", tier="thorough", seed_offset=1, record=False)
+    finish_corr(run, G, [search])
+    run.cov["rule"] = ("rx: receiver kind x frames (valid/wrong-shape/malformed/padded/raw/sized at 256k-2..256k+2) x arrival cuts x read-size schedules x poll patterns "
+                       "(P = poll a fresh receive future once and drop it, Q = poll the retained future, W = poll it only when its waker fired); "
+                       "srv: the real Server::run, which abandons every connection's receive future whenever its select completes, on 1..4 connections with interleaved arrivals; "
+                       "non-trivial = a frame delivered / an error / a pending poll / end-of-stream (rx), replies delivered etc. (srv); distinct = distinct case lines")
+
+
 def search_rx(run, cfg, G):
     for off in (0, 1, 2):
         diff_run(run, G, ["rx"], "rx", rx_nontrivial, f"rx-search{off}", tier="thorough", seed_offset=off, record=False)
@@ -1100,8 +1117,10 @@ PROPS = {
         "property_modules": ["Zlink.Properties.C07"],
         "lean_modules": ["Zlink.Properties.C07"],
         "theorems": ["C07.C07_safe", "C07.C07_complete", "C07.C07_oracle", "C07.C07_state_only_in_connection", "C07.C07_parked_poll_is_noop"],
-        "run": run_rx, "search": search_rx,
-        "trusted_base": TB_COMMON, "assumptions": RX_ASSUME,
+        "run": run_c07, "search": search_rx,
+        "trusted_base": TB_COMMON, "assumptions": RX_ASSUME + [
+            "the property's second anchor - Server::run re-creates (abandons) every connection's receive future whenever its select completes - is exercised by also running the `srv` scenario under this check: a call that the server loses between two iterations of its loop is a lost message in the sense of C07",
+        ],
     },
 }
 
